@@ -1,7 +1,7 @@
 //! Harness-owned stubs: the seams at which the simulator injects faults. No rrtk type
 //! is mocked; these are the *leaves* real rrtk objects are wired to.
 
-use crate::vals::E;
+use crate::vals::{err_of, E};
 use rrtk::*;
 use std::cell::{Cell, RefCell};
 use std::rc::Rc;
@@ -116,7 +116,7 @@ impl Updatable<E> for SimClock {
     fn update(&mut self) -> NothingOrError<E> {
         self.updates.set(self.updates.get() + 1);
         match self.update_err.get() {
-            Some(k) => Err(Error::Other(k)),
+            Some(k) => Err(err_of(k)),
             None => Ok(()),
         }
     }
